@@ -15,14 +15,14 @@ ASSUMPTIONS = [
     "nondeterminism (fresh random PIT token, tie among equal-cost next hops, child chosen by a CanBePrefix cache lookup, pop order of equal-priority expirations) "
     "is taken from the implementation's observation and checked admissible; theorems quantify over every choice",
     "extraction: ExtrOcamlBasic only; N, positive, nat stay Coq datatypes",
-    "one forwarding thread (the thread-selection hash is not modelled); go1.26 testing/synctest virtual time",
+    "1-4 forwarding threads behind the real link-service dispatch; the name hash is abstract in the model (coq/Fw/World.v) and read from the implementation (HashNameToFwThread of every universe name and prefix); go1.26 testing/synctest virtual time",
 ]
 TRUSTED = ["Coq kernel 8.16.1", "Coq extraction + OCaml 4.13.1", "runner/Fw/driver.ml", "harness/fwcore generator and recording faces",
-           "verif hooks fw/fw/zz_verif_fw.go, fw/table/zz_verif_fw.go, std/utils/priority_queue/zz_verif_fw.go", "go1.26 toolchain (synctest)"]
+           "verif hooks fw/fw/zz_verif_fw.go, fw/table/zz_verif_fw.go, fw/face/zz_verif_fw.go, std/utils/priority_queue/zz_verif_fw.go", "go1.26 toolchain (synctest)"]
 
-RULE = ("one evaluation = one generated history (setup of 2-6 faces of mixed scope/link type, FIB, strategy choice, CS flags; then 20-45 events: Interests, Data, "
-        "sleeps, PIT update ticks, dead-nonce sweeps, FIB/strategy/face/CS changes) executed on a real fw.Thread; after every event the sends recorded on the fake faces "
-        "and the dumped PIT/CS/dead-nonce state are compared with the extracted model and the property's spec oracle is evaluated on the implementation's observation; "
+RULE = ("one evaluation = one generated history (1-4 forwarding threads; setup of 2-6 faces of mixed scope/link type, FIB, strategy choice, CS flags; then 20-45 events: Interests, Data, "
+        "sleeps, per-thread PIT update ticks and dead-nonce sweeps, FIB/strategy/face/CS changes) executed on real fw.Thread objects behind the real link-service dispatch; after every event the sends recorded on the fake faces "
+        "and the dumped PIT/CS/dead-nonce state of every thread are compared with the extracted model and the property's spec oracle is evaluated on the implementation's observation; "
         "non-trivial = at least 3 operation kinds and at least one send or PIT entry; distinct by MD5 of the operation list")
 
 
@@ -122,7 +122,10 @@ def run(R, prop, extra_assumptions=()):
             R.proof_problems.append("runner did not finish on %s: %s" % (label, out[-300:]))
         seen_sig = {}
         for l in out.split("\n"):
-            if l.startswith("CASE "):
+            if l.startswith("STAT "):
+                p = l.split(" ")
+                kinds["model:" + p[1]] = kinds.get("model:" + p[1], 0) + int(p[2])
+            elif l.startswith("CASE "):
                 p = l.split(" ")
                 total += 1
                 if p[4] == "1":
